@@ -47,9 +47,12 @@ type StructV struct{ f []Value }
 type ArrayV struct{ e []Value }
 
 // SliceV: backing array object + window. nil slice has obj == nil.
+// When slen != nil the length is symbolic (a 64-bit term, 0 <= slen <= len):
+// len then holds the maximum length and the cells up to len exist.
 type SliceV struct {
 	obj           *Object
 	off, len, cap int
+	slen          *Term
 }
 
 type Iface struct {
